@@ -160,10 +160,12 @@ def stepLineRaw (st : HState) (line : String) : HState × List String :=
     let S := st.sys
     let reps := (List.range st.nreps).map fun r =>
       let x := S.reps r
-      s!"rep {r} base={x.k} nops={x.L.length} tasks={canonDB st.uuids st.keys x.T}"
+      if x.fl.isSome then s!"rep {r} busy"
+      else s!"rep {r} base={x.k} nops={x.L.length} tasks={canonDB st.uuids st.keys x.T}"
     let pends := (List.range st.nreps).map fun r =>
       let x := S.reps r
-      s!"pend {r} {x.L.length}" ++ String.join (x.L.map fun o => " ; " ++ opToks o)
+      if x.fl.isSome then s!"pend {r} busy"
+      else s!"pend {r} {x.L.length}" ++ String.join (x.L.map fun o => " ; " ++ opToks o)
     let chain := (List.range S.chain.length).map fun i =>
       s!"v{i+1} {String.ofList (Json.printVersion (S.chain.getD i []))}"
     let snap := match S.snap with
